@@ -8,6 +8,11 @@ import (
 	"testing/synctest"
 
 	"github.com/irai/packet"
+	"github.com/irai/packet/fastlog"
+	"github.com/irai/packet/handlers/arp_spoofer"
+	"github.com/irai/packet/handlers/dhcp4_spoofer"
+	"github.com/irai/packet/handlers/dns_naming"
+	"github.com/irai/packet/handlers/icmp_spoofer"
 
 	"verif/harness/mon"
 	"verif/harness/wk"
@@ -40,6 +45,8 @@ func TestWorker(t *testing.T) {
 // synctest.Test call FailNow, which must not end the worker). A panic escaping f - in particular the bubble's
 // "deadlock: main bubble goroutine has exited but blocked goroutines remain" - is reported under C09.
 func runBubble(c *wk.Ctx, idx int64, f func()) {
+	// every third bubble runs with all library loggers at debug level: the library has code that only runs then
+	setLogLevels(idx%3 == 2)
 	done := make(chan any, 1)
 	go func() {
 		defer func() { done <- recover() }()
@@ -68,5 +75,17 @@ func (r *rxBuf) load(f []byte) []byte { return r.b[:copy(r.b, f)] }
 func (r *rxBuf) scribble() {
 	for i := range r.b {
 		r.b[i] = 0xa5
+	}
+}
+
+// setLogLevels switches every logger of the library between its default (info) and debug level. Debug level makes the library
+// render packets and tables into log lines (String()/FastLog of the views) and takes branches that are dead otherwise.
+func setLogLevels(debug bool) {
+	lv := fastlog.LevelInfo
+	if debug {
+		lv = fastlog.LevelDebug
+	}
+	for _, l := range []*fastlog.Logger{packet.Logger, arp_spoofer.Logger, dhcp4_spoofer.Logger, dns_naming.Logger, icmp_spoofer.Logger4, icmp_spoofer.Logger6} {
+		l.SetLevel(lv)
 	}
 }
